@@ -54,7 +54,12 @@ fn int_value_as(s: &str, form: i64) -> Value {
     }
 }
 
-fn enc_value(v: &Value, out: &mut Vec<String>) {
+/// `pairs`: the container is a zip, its items are tuples (x, y): they are encoded by their first component
+fn enc_value(v: &Value, out: &mut Vec<String>, pairs: bool) {
+    if pairs && v.is_tuple() {
+        let first = v.get_item_by_index(0).unwrap_or(Value::UNDEFINED);
+        return enc_value(&first, out, false);
+    }
     if v.is_undefined() {
         out.push("3".into());
     } else if v.kind() == ValueKind::String {
@@ -72,7 +77,11 @@ fn enc_value(v: &Value, out: &mut Vec<String>) {
         let items: Vec<Value> = v.try_iter().map(|i| i.collect()).unwrap_or_default();
         out.push(items.len().to_string());
         for it in items {
-            out.push(it.to_string());
+            if pairs && it.is_tuple() {
+                out.push(it.get_item_by_index(0).unwrap_or(Value::UNDEFINED).to_string());
+            } else {
+                out.push(it.to_string());
+            }
         }
     } else if v.kind() == ValueKind::Number {
         out.push("4".into());
@@ -133,6 +142,17 @@ fn main() {
                 Value::from(std::sync::Arc::<str>::from(t))
             };
             ("x", v, Value::UNDEFINED, Value::UNDEFINED)
+        } else if kind == 13 || kind == 14 {
+            // zip of an unsized lazy iterable with a longer list (13: lazy first, 14: list first): the items are
+            // pairs whose first component is the element; the zip ends with the shorter (lazy) argument
+            let mut longer: Vec<i128> = elems.clone();
+            longer.push(0);
+            longer.push(0);
+            if kind == 13 {
+                ("(p|zip(q))", Value::UNDEFINED, container(5, &elems), container(3, &longer))
+            } else {
+                ("(p|zip(q))", Value::UNDEFINED, container(3, &longer), container(5, &elems))
+            }
         } else if (6..=8).contains(&kind) {
             let h = n / 2;
             let (pk, qk) = match kind {
@@ -186,7 +206,7 @@ fn main() {
         let ctx = context! { x => x, p => p, q => q, a => val(&b[0]), b => val(&b[1]), c => val(&b[2]) };
         let mut out = vec![];
         match env.compile_expression(&src).and_then(|e| e.eval(ctx)) {
-            Ok(v) => enc_value(&v, &mut out),
+            Ok(v) => enc_value(&v, &mut out, kind == 13 || kind == 14),
             Err(e) => {
                 out.push("1".into());
                 out.push(err_code(e.kind()).to_string());
